@@ -34,7 +34,7 @@ def leaves(t, path=()):
 
 
 @script(["C20"], "buildRemainingTreeAsLists/post (fixed candidates, symbolic assertion sets)",
-        variants=(("3cands", "1neb"), ("3cands", "2neb"), ("3cands", "3neb"), ("4cands", "2neb")))
+        variants=(("3cands", "1neb"), ("3cands", "2neb"), ("3cands", "3neb")))
 def tree_post(S, I, variant):
     nc = int(variant[0][0])
     nneb = int(variant[1][0])
@@ -90,5 +90,5 @@ def tree_post(S, I, variant):
 
 
 for _d in SCRIPTS:
-    if "2neb" in _d["name"]:
+    if "3neb" in _d["name"]:
         _d["thorough_only"] = True
